@@ -2400,6 +2400,6 @@ func classifyPull(c PullCase) (bool, []string) {
 func TestPullRules(t *testing.T) {
 	pbt.Run(t, pbt.Spec[PullCase]{
 		ID: "C17", Name: "pull-rules", Gen: genPullCase, Run: runPull, Classify: classifyPull,
-		Quick: 300, Thorough: 1500, Isolate: true,
+		Quick: 240, Thorough: 1500, Isolate: true,
 	})
 }
